@@ -345,6 +345,7 @@ def run(ctx):
     from harness import c03 as C03
     vis_seen = {}
     C03.sequences(ctx, 2, 2, vis_seen)
+    C03.end_to_end(ctx, vis_seen)
     ctx.extra['visibility_subcheck'] = vis_seen
     ctx.extra['entry_kinds_per_path'] = kinds
     ctx.extra['generator_refusals'] = panics
